@@ -8,6 +8,15 @@ Open Scope Z_scope.
 
 Definition consts (j : job) := (paused j, direct j, ttl j, pvalid j, owner j).
 
+(* terminal phases short-circuit: the reconcile is the identity and records nothing *)
+Lemma reconcile_terminal_eq fx s f :
+  terminal (phase (sj s)) = true -> reconcile fx s f = (s, []).
+Proof.
+  intros T. unfold reconcile. destruct (ignored (sj s) (sgen s)); [reflexivity|].
+  unfold do_migrate. cbn [cj]. rewrite T.
+  destruct (paused (sj s)); cbn [ctx_of cj cr ce]; destruct s; reflexivity.
+Qed.
+
 Section PassC.
 Variable fx : bool.
 Variable j0 : job.
@@ -98,3 +107,42 @@ Proof.
   destruct (direct (cj c1)); [apply C_direct|apply C_resfirst]; auto.
 Qed.
 End PassC.
+
+Lemma terminal_failed ph : ph = PH_FAILED -> terminal ph = true.
+Proof. intros ->. reflexivity. Qed.
+
+Lemma timed_out_failed a b : timed_out a b = true ->
+  terminal (phase a) = false /\ phase b = PH_FAILED /\ reason b = RS_TIMEOUT.
+Proof.
+  unfold timed_out. intros H. apply andb_true_iff in H. destruct H as (H & R).
+  apply andb_true_iff in H. destruct H as (T & P).
+  apply negb_true_iff in T. apply Z.eqb_eq in P. apply Z.eqb_eq in R. auto.
+Qed.
+
+(* one reconcile: what it never writes, and the reservation of a job it fails for timeout *)
+Lemma reconcile_frame fx s f :
+  let r := reconcile fx s f in
+  consts (sj (fst r)) = consts (sj s)
+  /\ (rref (sj s) = true -> rref (sj (fst r)) = true)
+  /\ (timed_out (sj s) (sj (fst r)) = true -> rref (sj s) = true -> sr (fst r) = None)
+  /\ sp (fst r) = sp s /\ sbp (fst r) = sbp s /\ snow (fst r) = snow s /\ sgen (fst r) = sgen s.
+Proof.
+  cbv zeta.
+  assert (Same : timed_out (sj s) (sj s) = true -> rref (sj s) = true -> sr s = None).
+  { intros T. apply timed_out_failed in T. destruct T as (T & P & _).
+    rewrite (terminal_failed _ P) in T. discriminate. }
+  destruct (terminal (phase (sj s))) eqn:T.
+  { rewrite (reconcile_terminal_eq fx s f T). cbn. repeat split; auto. }
+  unfold reconcile. destruct (ignored (sj s) (sgen s)).
+  { cbn. repeat split; auto. }
+  set (e := mkREnv _ _ _ _). set (c := mkCtx _ _ _ _).
+  assert (S : sat (CS (sj s)) (CG (sj s)) (do_migrate fx e c)).
+  { apply C_do_migrate. subst c. unfold CG. cbn. repeat split; auto.
+    intros P. rewrite (terminal_failed _ P) in T. discriminate. }
+  cbn [fst snd sj sr sp sbp snow sgen].
+  destruct (do_migrate fx e c) as [c'|c']; cbn [sat ctx_of] in *.
+  - destruct S as (S1 & S2 & S3). repeat split; auto.
+    intros TO R. apply timed_out_failed in TO. destruct TO as (_ & P & RS). apply S3; auto.
+  - destruct S as (S1 & S2 & S3). repeat split; auto.
+    intros TO R. apply timed_out_failed in TO. destruct TO as (_ & P & _). contradiction.
+Qed.
